@@ -627,12 +627,30 @@ def check_timedelta_total(ctx, R, modules=('streamz.core', 'streamz.sources', 's
          'a duration is converted through its .%s component (drops whole days / sub-second part): %s' % (
              bad[0][1].attr if bad else '?', ', '.join('%s:%d' % (f.qual, x.lineno) for f, x in bad)),
          ctx.where(bad[0][0], bad[0][1].lineno) if bad else None, None, n)
+    # convert_interval on its symbolic paths: a string becomes Timedelta(<it>).total_seconds(), anything else is returned as it is
+    from ..symexpr import SymEval, nf, norm_cond
     ci = ctx.model.function('streamz.core', 'convert_interval')
-    rets = [r for r in own_nodes(ci.node) if isinstance(r, ast.Return)]
-    ok = any(isinstance(a, ast.Assign) and isinstance(a.value, ast.Call) and isinstance(a.value.func, ast.Attribute)
-             and a.value.func.attr == 'total_seconds' for a in own_nodes(ci.node)) and all(src(r.value) == 'interval' for r in rets)
-    R.ob('TIMEDELTA-TOTAL', ctx.construct(ci), 'convert_interval', ok,
-         'convert_interval does not turn a string interval into Timedelta(...).total_seconds()', ctx.where(ci, ci.node.lineno))
+    p0 = ci.params()[0]
+    ok, npaths = True, 0
+    for r in SymEval(ctx.model, None).run(ci):
+        if r.raised or r.ret is None:
+            continue
+        npaths += 1
+        is_str = None
+        for c, o in r.conds:
+            t, o2 = norm_cond(c, o)
+            if t.replace(' ', '') == 'isinstance(%s,str)' % p0:
+                is_str = o2
+        v = nf(r.ret)
+        if is_str is True and not (v.endswith('Timedelta(%s).total_seconds()' % p0)):
+            ok = False
+        if is_str is False and v != p0:
+            ok = False
+        if is_str is None:
+            ok = False
+    R.ob('TIMEDELTA-TOTAL', ctx.construct(ci), 'convert_interval', ok and npaths >= 2,
+         'convert_interval does not turn a string interval into Timedelta(...).total_seconds() (and return numbers unchanged)',
+         ctx.where(ci, ci.node.lineno), None, npaths)
 
 
 def _mutable_value(n):
